@@ -337,8 +337,8 @@ fn judge(c: &DCase, g: &Grouped, target: &PathBuf) -> Verdict {
 pub fn check(tier: Tier) -> i32 {
     let ctx = Ctx::new("C08", tier);
     replay_corpus::<DCase, _>(&ctx, run_case);
-    drive(&ctx, "main", tier.pick(3000, 50000), || dcase_strategy(profile()), run_case);
-    drive(&ctx, "big-groups", tier.pick(400, 5000), big_strategy, run_case);
+    drive(&ctx, "main", tier.pick(6000, 60000), || dcase_strategy(profile()), run_case);
+    drive(&ctx, "big-groups", tier.pick(800, 6000), big_strategy, run_case);
     cleanup_process_scratch();
     ctx.finish(
         "exploration",
